@@ -42,6 +42,8 @@ def gen_chan(rng, p):
         if doms:
             line += " domains=" + ",".join(doms)
         line += " ndots=%d" % rng.choice([0, 1, 1, 2, 3])
+    if rng.random() < p.get("pendingwrite_prob", 0.0):
+        line += " pendingwrite=1"
     if rng.random() < p.get("probe_prob", 0.3):
         line += " retrychance=%d retrydelay=%d" % (rng.choice([1, 1, 2, 10]), rng.choice([0, 100, 1000, 5000]))
     return line, ns, flags
@@ -116,6 +118,17 @@ def gen_case(rng, p, maxops):
             ops.append("sockfail call=%s nth=%d errno=%d" % (call, rng.choice([1, 1, 2, 3]), errno))
         elif r < 0.84 + p.get("sockfail_w", 0.0) and p.get("edns_prob", 0.0) > 0:
             ops.append(rng.choice(["selfip v=1", "selfip v=0", "adv 119999", "adv 120001", "adv 300001", "adv 86400001", "adv 1000"]))
+        elif r < 0.88 and p.get("tcp_ops", 0) and rng.random() < p["tcp_ops"]:
+            c = rng.random()
+            if c < 0.35:
+                ops.append("chunks tx=-%d sizes=%s" % (rng.choice([1, 1, 2]), ",".join(str(rng.choice([1, 1, 2, 3, 5, 0, 20, 100])) for _ in range(rng.randint(1, 12)))))
+            elif c < 0.7:
+                ops.append("wlimit sizes=%s%s" % (",".join(str(rng.choice([1, 2, 3, 10, 0, 30, 1000])) for _ in range(rng.randint(1, 10))),
+                                                  (" tx=-1" if rng.random() < 0.5 else "")))
+            elif c < 0.8:
+                ops.append("%s tx=-1" % rng.choice(["eof", "reset"]))
+            else:
+                ops.append("proc w=-1" if rng.random() < 0.5 else "pendingwrite")
         elif r < 0.9:
             ops.append("timeoutq" + (" maxtv=%d" % rng.choice([0, 1, 500, 100000]) if rng.random() < 0.7 else ""))
         else:
@@ -124,6 +137,55 @@ def gen_case(rng, p, maxops):
         ops.append("cancel")
     ops.append("destroy")
     return ops
+
+
+def gen_tcp_scenario(rng, segmented):
+    """One TCP exchange: k requests over one connection, replies delivered as a byte stream.
+    `segmented` adds write-acceptance limits and read chunking; the unsegmented twin is otherwise identical."""
+    k = rng.randint(1, 6)
+    flags = 1 | (16 if rng.random() < 0.6 else 0)
+    pw = rng.random() < 0.3
+    seed = rng.getrandbits(32)
+    r2 = __import__("random").Random(seed)
+
+    def build(seg):
+        rr = __import__("random").Random(seed)
+        ops = ["chan servers=10.0.0.1 flags=%d tries=2 timeout=3000%s" % (flags, " pendingwrite=1" if pw else "")]
+        if seg:
+            ops.append("wlimit sizes=%s" % ",".join(str(rng.choice([1, 1, 2, 3, 7, 0, 30, 33, 34, 35, 1000])) for _ in range(rng.randint(1, 14))))
+        names = [rr.choice(NAMES) for _ in range(k)]
+        for i, nm in enumerate(names):
+            ops.append("req tok=%d kind=send name=%s type=1" % (i + 1, nm))
+        if pw:
+            ops.append("pendingwrite")
+        for _ in range(3 if not seg else 18):
+            ops.append("procall")
+        order = list(range(k))
+        rr.shuffle(order)
+        nrep = rr.randint(0, k)
+        for j in order[:nrep]:
+            kind = rr.choice(["noerror", "noerror", "nxdomain", "nodata", "empty"])
+            ops.append("reply tx=%d kind=%s%s" % (j, kind, " an=%d ttl=%d" % (rr.randint(1, 3), rr.choice([1, 30, 300])) if kind == "noerror" else ""))
+        if seg and nrep:
+            ops.append("chunks tx=0 sizes=%s" % ",".join(str(rng.choice([1, 1, 1, 2, 3, 5, 0, 20, 40, 100])) for _ in range(rng.randint(1, 40))))
+        for _ in range(3 if not seg else 45):
+            ops.append("procall")
+        end = rr.random()
+        if end < 0.2:
+            ops += ["eof tx=0", "procall"]
+        elif end < 0.3:
+            ops += ["reset tx=0", "procall"]
+        ops += ["adv 3000", "tick", "adv 7000", "tick", "cancel"]
+        return ops
+    return build(segmented)
+
+
+def gen_tcp_pair(rng):
+    st = rng.getstate()
+    a = gen_tcp_scenario(rng, True)
+    rng.setstate(st)
+    b = gen_tcp_scenario(rng, False)
+    return a + b + ["destroy"]
 
 
 def gen_stream(profile, quick_n, thorough_n, quick_ops=30, thorough_ops=120):
